@@ -13,7 +13,7 @@ if cmp -s /repo/src/$FILE $D/$(basename $FILE); then echo "MUTANT $NAME: sed exp
 diff <(cat /repo/src/$FILE) $D/$(basename $FILE) | head -8
 ENG=${ENGINES:-$(ls /verif/src/engines/*.cpp | tr '\n' ' ')}
 # the mutated file may include headers relative to its own directory
-make -C /verif -j${JOBS:-8} ENGINES="$ENG" OBJ=/verif/build/obj_mut_$NAME BIN=/verif/build/verifsim_mut_$NAME EXTRA_SRCS=$D/$(basename $FILE) CPPFLAGS_EXTRA="-I/repo/src/$(dirname $FILE)" > $D/build.log 2>&1 || { echo "MUTANT $NAME: build failed"; tail -20 $D/build.log; exit 4; }
+make -C /verif -j${JOBS:-8} ENGINES="$ENG" OBJ=/verif/build/obj_mut_$NAME BIN=/verif/build/verifsim_mut_$NAME EXTRA_SRCS=$D/$(basename $FILE) CPPFLAGS_EXTRA="-iquote /repo/src/$(dirname $FILE)" > $D/build.log 2>&1 || { echo "MUTANT $NAME: build failed"; tail -20 $D/build.log; exit 4; }
 mkdir -p $D/out/replays $D/out/evidence; VERIF_DIR=$D/out /verif/build/verifsim_mut_$NAME run $PROP "$@" > $D/run.log 2>&1
 RC=$?
 grep -E "^VIOLATION|violation class|SIMULATOR|done:" $D/run.log | head -6
